@@ -25,7 +25,7 @@ import traceback
 from fractions import Fraction
 
 import engine
-from common import E, A, ov_lit, qlit, oqlit, ozlit, zlit, blit
+from common import resolved_entry, E, A, ov_lit, qlit, oqlit, ozlit, zlit, blit
 from suite_m import exc_to_E, fr
 
 KIND = {"order": 1, "cancel": 2, "execution": 3, "session": 4, "market": 5}
@@ -534,6 +534,15 @@ def gen_case(rng, long_ok=True):
             elif kind == "thr":
                 cfg[name] = {"class": "TradingHaltRule", "targetMarkets": rng.sample(mk[:nm], rng.randint(1, nm)),
                              "triggerChangeRate": rng.choice([0.0078125, 0.015625, 0.03125, 0.0625]), "haltingTimeLength": rng.randint(1, 4)}
+            r2 = random.Random(repr(("inherit", name, steps, total, tgt)))     # its own stream: the base cases stay what they were
+            if kind in ("fps", "oms") and r2.random() < 0.3:
+                # the shock is configured through inheritance: a complete, enabled base entry and a child that overrides some of its
+                # settings - falsy values (false, 0) included, which must win over the base's
+                base = dict(cfg[name], enabled=True, triggerTime=max(1, cfg[name]["triggerTime"]))
+                over = r2.choice([{"enabled": False}, {"triggerTime": 0}, {"enabled": False, "triggerTime": 0},
+                                   {"priceChangeRate": cfg[name]["priceChangeRate"]}, {"enabled": cfg[name]["enabled"]}])
+                cfg[name + "B"] = base
+                cfg[name] = dict({"extends": name + "B"}, **over)
             ses["events"].append(name)
             nev += 1
         if nm >= 2 and rng.random() < 0.12:
@@ -588,7 +597,7 @@ def config_term(case, res):
     eid = 0
     for sid, ses in enumerate(cfg["simulation"]["sessions"]):
         for name in ses.get("events", []):
-            e = cfg[name]
+            e = resolved_entry(cfg, name)
             cls = e["class"]
             en = bool(e.get("enabled", True))
             if cls == "Probe":
@@ -759,7 +768,7 @@ class SuiteS(engine.Suite):
                 tags[f"{e[0]}:{e[1]}" if e[0] == 3 else str(e[0])] += 1
             for ses in c["cfg"]["simulation"]["sessions"]:
                 for n in ses.get("events", []):
-                    evk[c["cfg"][n]["class"]] += 1
+                    evk[resolved_entry(c["cfg"], n)["class"]] += 1
             if sum(s["iterationSteps"] for s in c["cfg"]["simulation"]["sessions"]) > 100:
                 chunk += 1
         return {"key_rule": "distinct cases with at least one fill", "event_histogram": dict(tags), "run_errors": dict(errs),
